@@ -242,7 +242,9 @@ def band_case(rec, seedt):
         k1, k2 = sorted(int(k) for k in rng.integers(0, len(grid), size=2))
         if kind == "one-bin":
             k2 = k1
-        lo, hi = float(grid[k1]), float(grid[k2])
+        # (the last grid value of an even-length grid can exceed fs/2 by one rounding: requests
+        # above Nyquist are rejected by design, so the edges are capped at fs/2)
+        lo, hi = min(float(grid[k1]), nyq), min(float(grid[k2]), nyq)
     elif kind == "interior":
         lo, hi = sorted(rng.uniform(0, nyq, size=2))
     elif kind == "from-zero":
